@@ -3,7 +3,7 @@
 //!   statics-race <threads> <variant>
 //!   shared-table <threads>
 //!   shared-params <threads> <bits>
-//!   shared-verify <threads> <bits> <proof hex> <commitment hex> [accept|reject]
+//!   shared-verify <threads> <bits> <capacity> {<proof hex> <commitments hex> <accept|reject>}...
 //!
 //! Output: one line `SIG <thread.checkpoint,...>` (schedule signature: order in which threads
 //! passed harness-level checkpoints, taken with a Relaxed ticket counter that adds no
@@ -237,18 +237,31 @@ fn unhex(s: &str) -> Vec<u8> {
     (0..s.len() / 2).map(|i| u8::from_str_radix(&s[2 * i..2 * i + 2], 16).unwrap_or(0)).collect()
 }
 
-/// Threads share one parameter object and concurrently decode and verify the SAME proof (made
-/// natively by the driver and handed over in argv), racing first use of the statics as well.
-fn shared_verify(threads: usize, bits: usize, proof_hex: &str, commitment_hex: &str, expect_ok: bool) -> Result<(), String> {
-    let log = Arc::new(Mutex::new(Vec::new()));
-    let proof_bytes = Arc::new(unhex(proof_hex));
-    let cb = unhex(commitment_hex);
-    if cb.len() != 32 {
-        return Err("commitment must be 32 bytes".into());
+/// Threads share one parameter object (capacity `cap`, possibly larger than any aggregate) and
+/// concurrently decode and verify proofs made natively by the driver and handed over in argv.
+/// `kinds` = [(proof hex, concatenated commitments hex, expected verdict)]; thread t verifies kind
+/// t % kinds.len(), so concurrent calls may have different aggregation factors. First use of the
+/// statics is raced as well.
+fn shared_verify(threads: usize, bits: usize, cap: usize, kinds: Vec<(String, String, bool)>) -> Result<(), String> {
+    if kinds.is_empty() {
+        return Err("no proof kinds given".into());
     }
-    let mut c = [0u8; 32];
-    c.copy_from_slice(&cb);
-    let commitment = CompressedRistretto(c).decompress().ok_or("commitment does not decode")?;
+    let log = Arc::new(Mutex::new(Vec::new()));
+    let mut parsed = Vec::new();
+    for (ph, ch, expect) in &kinds {
+        let cb = unhex(ch);
+        if cb.is_empty() || cb.len() % 32 != 0 {
+            return Err("commitments must be a multiple of 32 bytes".into());
+        }
+        let mut cs = Vec::new();
+        for chunk in cb.chunks(32) {
+            let mut c = [0u8; 32];
+            c.copy_from_slice(chunk);
+            cs.push(CompressedRistretto(c).decompress().ok_or("commitment does not decode")?);
+        }
+        parsed.push((unhex(ph), cs, *expect));
+    }
+    let parsed = Arc::new(parsed);
     let barrier = Arc::new(Barrier::new(threads));
     let shared: Arc<Mutex<Option<RangeParameters<RistrettoPoint>>>> = Arc::new(Mutex::new(None));
     let mut handles = Vec::new();
@@ -256,35 +269,37 @@ fn shared_verify(threads: usize, bits: usize, proof_hex: &str, commitment_hex: &
         let log = log.clone();
         let barrier = barrier.clone();
         let shared = shared.clone();
-        let proof_bytes = proof_bytes.clone();
-        handles.push(thread::spawn(move || -> Result<bool, String> {
+        let parsed = parsed.clone();
+        handles.push(thread::spawn(move || -> Result<(bool, bool), String> {
+            let (proof_bytes, commitments, expect) = &parsed[t % parsed.len()];
             barrier.wait();
             checkpoint(&log, t, 0);
             let pc = create_pedersen_gens_with_extension_degree(ExtensionDegree::DefaultPedersen);
             let params = {
                 let mut g = shared.lock().unwrap();
                 if g.is_none() {
-                    *g = Some(RangeParameters::init(bits, 1, pc).map_err(|e| format!("{:?}", e))?);
+                    *g = Some(RangeParameters::init(bits, cap, pc).map_err(|e| format!("{:?}", e))?);
                 }
                 g.as_ref().unwrap().clone()
             };
             checkpoint(&log, t, 1);
-            let st = RangeStatement::init(params, vec![commitment], vec![None], None).map_err(|e| format!("{:?}", e))?;
-            let proof = RangeProof::<RistrettoPoint>::from_bytes(&proof_bytes).map_err(|e| format!("{:?}", e))?;
+            let n = commitments.len();
+            let st = RangeStatement::init(params, commitments.clone(), vec![None; n], None).map_err(|e| format!("{:?}", e))?;
+            let proof = RangeProof::<RistrettoPoint>::from_bytes(proof_bytes).map_err(|e| format!("{:?}", e))?;
             checkpoint(&log, t, 2);
             let ok = RangeProof::verify_batch(&mut [Transcript::new(b"miri-sched")], &[st], &[proof], VerifyAction::VerifyOnly).is_ok();
             checkpoint(&log, t, 3);
-            Ok(ok)
+            Ok((ok, *expect))
         }));
     }
     let mut results = Vec::new();
     for h in handles {
-        results.push(h.join().map_err(|_| "a thread panicked".to_string())??);
+        results.push(h.join().map_err(|_| "a thread panicked inside a library call".to_string())??);
     }
     println!("SIG {}", signature(&log));
-    for (t, ok) in results.iter().enumerate() {
-        if *ok != expect_ok {
-            return Err(format!("thread {}: concurrent verification returned {} where the single-threaded verdict is {}", t, ok, expect_ok));
+    for (t, (ok, expect)) in results.iter().enumerate() {
+        if ok != expect {
+            return Err(format!("thread {}: concurrent verification returned {} where the single-threaded verdict is {}", t, ok, expect));
         }
     }
     Ok(())
@@ -297,13 +312,14 @@ fn main() {
         Some("statics-race") => statics_race(num(1, 3), num(2, 0)),
         Some("shared-table") => shared_table(num(1, 2)),
         Some("shared-params") => shared_params(num(1, 2), num(2, 1)),
-        Some("shared-verify") => shared_verify(
-            num(1, 2),
-            num(2, 2),
-            args.get(3).map(|s| s.as_str()).unwrap_or(""),
-            args.get(4).map(|s| s.as_str()).unwrap_or(""),
-            args.get(5).map(|s| s != "reject").unwrap_or(true),
-        ),
+        Some("shared-verify") => {
+            let kinds: Vec<(String, String, bool)> = args[4.min(args.len())..]
+                .chunks(3)
+                .filter(|c| c.len() == 3)
+                .map(|c| (c[0].clone(), c[1].clone(), c[2] != "reject"))
+                .collect();
+            shared_verify(num(1, 2), num(2, 2), num(3, 1), kinds)
+        },
         _ => Err("usage: miri-sched <statics-race|shared-table|shared-params> ...".to_string()),
     };
     match r {
